@@ -203,6 +203,13 @@ namespace
     {
         std::vector<Call>* log;
         int id;
+        static constexpr int moved_from = -424242;
+        Recorder(std::vector<Call>* l, int i) : log(l), id(i) {}
+        Recorder(const Recorder& o) : log(o.log), id(o.id) {}
+        // moving from a functor takes its identity along (as moving from a std::function empties it): a dispatcher that
+        // moves from the caller's own lvalue functor leaves the caller - and every later registration of it - without handler
+        Recorder(Recorder&& o) noexcept : log(o.log), id(o.id) { o.id = moved_from; }
+        Recorder& operator=(const Recorder&) = default;
         // a generic handler (callable with the base types as well): the static types it is called with are those it was
         // registered for - the dispatcher casts before it calls
         template <class... T> RET operator()(T&... args) const
@@ -234,6 +241,7 @@ namespace
         std::vector<Call> log;
         std::string tail;
         int next_handler = 1;
+        int pass_mode = 0;
 
         FunctorWorld(Run& r, const Plan& p) : run(r), plan(p) { reset_indices(); tail = "initial/-"; }
         [[noreturn]] void viol(const char* oracle, const std::string& msg) { fail("model", std::string("C17/") + oracle + "/" + plan.cfg + "/" + tail, msg); }
@@ -242,8 +250,15 @@ namespace
         // runtime tuple of types -> template instantiation
         template <class... Done> struct Ins
         {
-            template <class W> static void go(W& w, const Key& k, const typename W::Rec& rec, std::true_type) { (void)k; w.dp->template insert<Done...>(rec); }
-            template <class W> static void go(W& w, const Key& k, const typename W::Rec& rec, std::false_type)
+            // how the caller hands the functor over: as a const lvalue, as its own non-const lvalue (which it goes on using), or as an rvalue
+            template <class W> static void go(W& w, const Key& k, typename W::Rec& rec, std::true_type)
+            {
+                (void)k;
+                if (w.pass_mode == 1) w.dp->template insert<Done...>(rec);
+                else if (w.pass_mode == 2) w.dp->template insert<Done...>(typename W::Rec(rec));
+                else w.dp->template insert<Done...>(static_cast<const typename W::Rec&>(rec));
+            }
+            template <class W> static void go(W& w, const Key& k, typename W::Rec& rec, std::false_type)
             {
                 constexpr size_t I = sizeof...(Done);
                 using next = std::integral_constant<bool, I + 1 == N>;
@@ -274,6 +289,8 @@ namespace
         };
         void do_erase(const Key& k, std::true_type) { Era<>::go(*this, k, std::false_type()); model.erase(k); uncertain.erase(k); }
         void do_erase(const Key&, std::false_type) {}
+        void raw_erase(const Key& k, std::true_type) { Era<>::go(*this, k, std::false_type()); }     // the dispatcher only, not the model
+        void raw_erase(const Key&, std::false_type) {}
 
         Key key_from(uint64_t raw) const { Key k; for (size_t i = 0; i < N; ++i) { k[i] = static_cast<int>(raw % NTYPES); raw /= NTYPES; } return k; }
 
@@ -357,8 +374,13 @@ namespace
                     if (st.op == OP_reinsert && !model.empty()) { auto it = model.begin(); std::advance(it, static_cast<long>(st.b % model.size())); k = it->first; SIM_PROBE("handler_overwritten"); }
                     int id = next_handler++;
                     bool ok = true;
-                    try { Active a; Ins<>::go(*this, k, Rec{&log, id}, std::false_type()); }
+                    Rec rec{&log, id};
+                    pass_mode = static_cast<int>((st.c >> 3) % 3);
+                    try { Active a; Ins<>::go(*this, k, rec, std::false_type()); }
                     catch (const std::bad_alloc&) { ok = false; }
+                    if (pass_mode == 1) SIM_PROBE("functor_registered_as_the_callers_own_lvalue");
+                    pass_mode = 0;
+                    if (rec.id != id) viol("functor", "the caller's functor, passed as an lvalue, was moved from by the registration");
                     if (ok) { model[k] = id; uncertain.erase(k); }
                     else
                     {
@@ -394,8 +416,10 @@ namespace
                     // A dispatcher is a value: its copy answers like the original did at that moment and is independent of it -
                     // the original may be changed or destroyed afterwards.  (Done right after a dispatch more often than not:
                     // whatever the last lookup left behind in the original must not tie the copy to it.)
-                    static const char* const vn[] = {"copy_then_destroy_original", "copy_then_change_and_destroy_original", "copy_assign_over_other_registrations", "move_construct"};
-                    unsigned v = static_cast<unsigned>(st.b % 4);
+                    static const char* const vn[] = {"copy_then_destroy_original", "copy_then_change_and_destroy_original", "copy_assign_over_other_registrations", "move_construct",
+                                                     "copy_then_erase_in_original", "copy_then_erase_in_copy"};
+                    unsigned v = static_cast<unsigned>(st.b % 6);
+                    if (!CAN_ERASE && v >= 4) v = (v == 4) ? 0 : 3;
                     // the fast dispatcher numbers the classes of a hierarchy once per process ("one fast dispatcher per hierarchy"):
                     // registering through two of them is outside the property, so its copies only replace the original
                     if (!CAN_ERASE && (v == 1 || v == 2)) v = (v == 1) ? 0 : 3;
@@ -403,20 +427,28 @@ namespace
                     if (!model.empty() && (st.c & 3)) { auto it = model.begin(); std::advance(it, static_cast<long>((st.c >> 2) % model.size())); dispatch_key(it->first, st.d); }
                     const int poison = 1 << 20;        // a handler that must never answer
                     std::unique_ptr<Disp> y;
-                    if (v == 0 || v == 1) y.reset(new Disp(static_cast<const Disp&>(*dp)));
+                    if (v == 4 || v == 5)
+                    {
+                        // erasing is a change like any other: what is erased in one of the two must stay registered in the other
+                        y.reset(new Disp(static_cast<const Disp&>(*dp)));
+                        if (v == 5) dp.swap(y);                 // dp: the one erased from, y: the one that must not notice
+                        for (const auto& kv : model) raw_erase(kv.first, std::integral_constant<bool, CAN_ERASE>());
+                        SIM_PROBE("erased_in_one_of_two_copies");
+                    }
+                    else if (v == 0 || v == 1) y.reset(new Disp(static_cast<const Disp&>(*dp)));
                     else if (v == 3) y.reset(new Disp(std::move(*dp)));
                     else
                     {
                         y.reset(new Disp);
                         std::unique_ptr<Disp> keep(std::move(dp));
                         dp = std::move(y);
-                        Ins<>::go(*this, k, Rec{&log, poison}, std::false_type());          // registered in the target of the assignment only
+                        { Rec prec{&log, poison}; Ins<>::go(*this, k, prec, std::false_type()); }          // registered in the target of the assignment only
                         *dp = static_cast<const Disp&>(*keep);
                         y = std::move(dp);
                         dp = std::move(keep);
                     }
                     if (v == 1)
-                        for (const auto& kv : model) Ins<>::go(*this, kv.first, Rec{&log, poison}, std::false_type());   // in the original only
+                        for (const auto& kv : model) { Rec prec{&log, poison}; Ins<>::go(*this, kv.first, prec, std::false_type()); }   // in the original only
                     dp.swap(y);
                     y.reset();                          // the original is gone
                     SIM_PROBE("dispatcher_copied");
@@ -441,14 +473,16 @@ namespace
     struct Exec
     {
         std::vector<Call>* log;
+        int calls = 0;           // the executor's own state: the handler has to run on the caller's executor, not on a copy of it
         template <class L, class R> int run(L& l, R& r)
         {
+            ++calls;
             log->push_back(Call{100 + type_id(l) * 10 + type_id(r), {static_cast<Shape*>(&l), static_cast<Shape*>(&r)}, nullptr});
             // static types must be the dynamic types of the arguments
             if (typeid(L) != typeid(l) || typeid(R) != typeid(r)) log->back().handler = -1;
             return log->back().handler;
         }
-        int on_error(Shape& l, Shape& r) { log->push_back(Call{0, {&l, &r}, nullptr}); return 0; }
+        int on_error(Shape& l, Shape& r) { ++calls; log->push_back(Call{0, {&l, &r}, nullptr}); return 0; }
     };
     // RMODE 0: the right-hand list defaults to the left-hand one; 1: an explicitly different right-hand list over the same base
     template <class SYM, int RMODE = 0>
@@ -481,6 +515,7 @@ namespace
             log.clear();
             int ret = Disp::dispatch(*l, *r, ex);
             if (log.size() != 1) viol("wrong-handler", std::to_string(log.size()) + " executor entries ran for one dispatch");
+            if (ex.calls != 1) viol("executor", "the handler did not run on the executor the caller passed (its state shows " + std::to_string(ex.calls) + " calls)");
             bool known = list_index(tl) >= 0 && rlist_index(tr) >= 0;
             const Call& c = log[0];
             if (!known)
@@ -504,6 +539,7 @@ namespace
                     log.clear();
                     Disp::dispatch(*r, *l, ex);
                     if (log.size() != 1 || log[0].handler != want_handler) viol("symmetry", "dispatch(a,b) and dispatch(b,a) reach different handlers");
+                    if (ex.calls != 2) viol("executor", "the handler of the mirrored call did not run on the executor the caller passed");
                 }
                 ++run.changing;
             }
